@@ -366,6 +366,21 @@ Definition root_inv_guard_raises (batch : seq nat) (n : nat) (ivs : seq nat) : b
   else if size batch + 2 != size ivs then true                                        (* 2245-2249 *)
   else (batch != take (size ivs - 2) ivs) || (n != nth 0 ivs (size ivs - 2)).         (* 2250-2254 *)
 
+(* StochasticLQ.to_dense (utils/stochastic_lq.py lines 66-81) for one batch member: [evals] / [evecs] = eigenvalues and
+   eigenvectors of the tridiagonal matrix of every probe (what lanczos_tridiag_to_diag returned), [funcs] = the
+   elementwise functions f_1 .. f_r; result: one number per function,
+       sum_j  n / num_random_probes * sum_l evecs[j][0, l]^2 * f_i(evals[j][l]).
+   The python list `results` has one accumulator PER FUNCTION (line 67) and line 79 rebinds results[i] only. *)
+Definition natF (n : nat) : F := iter n (fun x => aadd A x (a1 A)) (a0 A).
+Definition slq_to_dense (n k : nat) (evals : seq vec) (evecs : seq mat) (funcs : seq (F -> F)) : seq F :=
+  let P := size evals in                                                                  (* 68 *)
+  map (fun f =>
+         foldl (fun acc j =>                                                              (* 69 *)
+                  let lam := nth [::] evals j in let V := nth [::] evecs j in
+                  let dotp := sumn_ (fun l => amul A (amul A (mget V 0 l) (mget V 0 l)) (f (vget lam l))) k in   (* 75-78 *)
+                  aadd A acc (amul A (adiv A (natF n) (natF P)) dotp))                    (* 79 *)
+               (a0 A) (iota 0 P)) funcs.
+
 (* what lanczos_tridiag hands over (theorem C09_trim_shapes_any_arith) and what the operator is expected to return *)
 Definition lanczos_lead (nprobe : nat) (batch : seq nat) : seq nat :=
   (if nprobe == 1 then [::] else [:: nprobe]) ++ batch.
